@@ -24,7 +24,7 @@ def run(tier, seed):
     check.add_tlc(g)
     hist_file = os.path.join(wd, "histories.ndjson")
     # 3. long seeded histories mixing every class incl. whole-specification validation, on both builds, 1 and 4 OS threads
-    n, ln = (10, 40) if quick else (300, 120)
+    n, ln = (10, 40) if quick else (60, 80)   # measured: 400 calls with whole-spec validations ~ 100 MB of pool events
     jobs = [
         (vh, "enumerated", ["-seed", seed, "-in", hist_file, "-spec=false"], False),
         (vhd, "enumerated-debugpools", ["-seed", seed, "-in", hist_file, "-spec=false"], True),
